@@ -16,9 +16,10 @@ import (
 )
 
 type gen struct {
-	rng  *rand.Rand
-	seq  int
-	init *command.Command // the initialising command of this log, once issued
+	rng   *rand.Rand
+	seq   int
+	init  *command.Command // the initialising command of this log, once issued
+	theme string           // "" | "ops" | "nodes": a log that dwells on one command family
 }
 
 func (g *gen) pick(n int) int { return g.rng.Intn(n) }
@@ -27,7 +28,16 @@ func (g *gen) nextSeq() int   { g.seq++; return g.seq }
 
 func addrOf(id uint64) string { return fmt.Sprintf("n%d", id) }
 
+// shuffled returns the same role set in an arbitrary order: the order in which a proposer lists
+// the roles of a node carries no meaning (state.Normalize sorts them).
+func (g *gen) shuffled(roles []state.NodeRole) []state.NodeRole {
+	out := append([]state.NodeRole(nil), roles...)
+	g.rng.Shuffle(len(out), func(i, j int) { out[i], out[j] = out[j], out[i] })
+	return out
+}
+
 func (g *gen) node(id uint64, roles ...state.NodeRole) state.Node {
+	roles = g.shuffled(roles)
 	return state.Node{NodeID: id, Name: addrOf(id), Addr: addrOf(id), Roles: roles,
 		JoinState: state.NodeJoinStateActive, Status: state.NodeStatusAlive, CapacityWeight: uint32(1 + g.pick(5))}
 }
@@ -105,14 +115,31 @@ func findNode(st state.ClusterState, id uint64) (state.Node, bool) {
 
 func (g *gen) upsertNode(st state.ClusterState) command.Command {
 	id := uint64(1 + g.pick(6))
+	if g.chance(40) { // prefer a node that carries more than one role
+		var multi []uint64
+		for _, n := range st.Nodes {
+			if len(n.Roles) > 1 {
+				multi = append(multi, n.NodeID)
+			}
+		}
+		if len(multi) > 0 {
+			id = multi[g.pick(len(multi))]
+		}
+	}
 	n, ok := findNode(st, id)
 	if !ok {
 		n = g.node(id, state.NodeRoleData)
 		if g.chance(20) {
 			n.JoinState = state.NodeJoinStateJoining
 		}
+		if g.chance(20) {
+			n.Roles = g.shuffled([]state.NodeRole{state.NodeRoleControllerVoter, state.NodeRoleData})
+		}
 	} else {
-		switch g.pick(10) {
+		// The stored record is canonical; the proposal lists the same roles in any order (a repeated
+		// upsert that differs from the stored record only in role order is the same record).
+		n.Roles = g.shuffled(n.Roles)
+		switch g.pick(12) {
 		case 0:
 			n.Status = []state.NodeStatus{state.NodeStatusAlive, state.NodeStatusSuspect, state.NodeStatusDown}[g.pick(3)]
 		case 1:
@@ -277,6 +304,56 @@ func (g *gen) opsMCP(st state.ClusterState) command.Command {
 		c.OpsMCP = nil
 	}
 	return c
+}
+
+// opsMCPFollow continues an MCP administration workflow on the current desired state: enable, move
+// the executor while enabled (refused: it must be stopped first), stop, move it while stopped.
+// Consecutive commands of this family land in one ApplyBatch under most delivery schedules, where
+// each gate has to look at the state left by the entry before it.
+func (g *gen) opsMCPFollow(st state.ClusterState) command.Command {
+	o := st.OpsMCP.Clone()
+	if len(o.Credentials) == 0 {
+		o.Credentials = []state.OpsMCPCredential{{ID: "tok-0", DigestSHA256: strings.Repeat("ab", 32), CreatedAtUnixMillis: 1_800_000_000_000}}
+	}
+	other := o.OwnerNodeID
+	var active []uint64
+	for _, n := range st.Nodes {
+		if n.JoinState == state.NodeJoinStateActive && n.NodeID != o.OwnerNodeID {
+			active = append(active, n.NodeID)
+		}
+	}
+	if len(active) > 0 {
+		other = active[g.pick(len(active))]
+	}
+	if o.Enabled {
+		switch g.pick(8) {
+		case 0, 1, 2: // move the executor while enabled
+			o.OwnerNodeID = other
+		case 3: // stop and move in one command
+			o.Enabled, o.OwnerNodeID = false, other
+		case 4, 5, 6: // administrative stop
+			o.Enabled = false
+		default: // the same desired state again
+		}
+	} else {
+		switch g.pick(8) {
+		case 0, 1, 2: // move the executor while stopped
+			o.OwnerNodeID = other
+		case 3, 4: // enable on the current executor
+			o.Enabled = true
+		case 5, 6: // enable on another executor
+			o.Enabled, o.OwnerNodeID = true, other
+		default:
+		}
+	}
+	var rev *uint64
+	if g.chance(50) { // the Manager fences these with the revision it read
+		v := st.Revision
+		rev = &v
+	} else {
+		rev = g.expRev(st)
+	}
+	return command.Command{Kind: command.KindReplaceOpsMCPState, IssuedAt: g.issuedAt(), ExpectedRevision: rev, OpsMCP: &o}
 }
 
 func dataNodes(st state.ClusterState) []uint64 {
@@ -663,12 +740,26 @@ func (g *gen) command(st state.ClusterState) command.Command {
 			return command.Command{Kind: command.KindCompleteTask, ExpectedRevision: &stale, TaskResult: &command.TaskResult{TaskID: "gone"}}
 		}
 	}
+	if st.Revision != 0 && g.theme != "" && g.chance(55) {
+		switch g.theme {
+		case "ops":
+			if st.OpsMCP != nil && g.chance(85) {
+				return g.opsMCPFollow(st)
+			}
+			return g.opsMCP(st)
+		case "nodes":
+			return g.upsertNode(st)
+		}
+	}
 	// keep multi-step workflows moving
 	if len(g.tasksOfKind(st, state.TaskKindSlotReplicaMove)) > 0 && g.chance(35) {
 		if g.chance(70) {
 			return g.advancePhase(st)
 		}
 		return g.commitMove(st)
+	}
+	if st.OpsMCP != nil && g.chance(18) {
+		return g.opsMCPFollow(st)
 	}
 	if len(g.tasksOfKind(st, state.TaskKindBootstrap)) > 0 && g.chance(25) {
 		if g.chance(60) {
@@ -679,7 +770,7 @@ func (g *gen) command(st state.ClusterState) command.Command {
 	switch r := g.pick(100); {
 	case r < 4:
 		return g.initCommand()
-	case r < 14:
+	case r < 15:
 		return g.upsertNode(st)
 	case r < 18:
 		return g.updateControllers(st)
@@ -689,7 +780,7 @@ func (g *gen) command(st state.ClusterState) command.Command {
 		return g.hashSlots(st)
 	case r < 32:
 		return g.scheduledBackup(st)
-	case r < 37:
+	case r < 38:
 		return g.opsMCP(st)
 	case r < 50:
 		return g.bootstrap(st)
@@ -728,6 +819,7 @@ func (g *gen) targeted(st state.ClusterState, class string) command.Command {
 			}
 		}
 		n, _ := findNode(st, st.Nodes[g.pick(len(st.Nodes))].NodeID)
+		n.Roles = g.shuffled(n.Roles)
 		n.CapacityWeight += 1 + uint32(g.pick(3))
 		return command.Command{Kind: command.KindUpsertNode, IssuedAt: g.issuedAt(), Node: &n}
 	case "updated":
@@ -740,6 +832,7 @@ func (g *gen) targeted(st state.ClusterState, class string) command.Command {
 			return command.Command{Kind: command.KindFailTask, ExpectedRevision: &stale, TaskResult: &command.TaskResult{TaskID: "gone"}}
 		}
 		n, _ := findNode(st, st.Nodes[g.pick(len(st.Nodes))].NodeID)
+		n.Roles = g.shuffled(n.Roles)
 		return command.Command{Kind: command.KindUpsertNode, IssuedAt: g.issuedAt(), Node: &n}
 	default:
 		return command.Command{Kind: "bogus_kind", IssuedAt: g.issuedAt()}
